@@ -35,20 +35,31 @@ func FactoidToFactoshi(amt string) (uint64, error) {
 
 	dot := regexp.MustCompile(`\.`)
 	pieces := dot.Split(amt, 2)
-	whole, _ := strconv.Atoi(pieces[0])
-	total += uint64(whole) * 1e8
+	if pieces[0] != "" {
+		whole, err := strconv.ParseUint(pieces[0], 10, 64)
+		if err != nil {
+			return 0, fmt.Errorf("invalid amount: %v", err)
+		}
+		if whole > math.MaxUint64/100000000 {
+			return 0, fmt.Errorf("amount is too large")
+		}
+		total = whole * 100000000
+	}
 
 	if len(pieces) > 1 {
 		if len(pieces[1]) > 8 {
 			return 0, fmt.Errorf("factoids are only subdivisible up to 1e-8, trim back on the number of decimal places")
 		}
 
-		a := regexp.MustCompile(`(0*)([0-9]+)$`)
-
-		as := a.FindStringSubmatch(pieces[1])
-		part, _ := strconv.Atoi(as[0])
-		power := len(as[1]) + len(as[2])
-		total += uint64(part * 1e8 / int(math.Pow10(power)))
+		// pad the (at most 8) decimal digits to exactly 8: "5" -> 50000000
+		part, err := strconv.ParseUint(pieces[1]+strings.Repeat("0", 8-len(pieces[1])), 10, 64)
+		if err != nil {
+			return 0, fmt.Errorf("invalid amount: %v", err)
+		}
+		if total > math.MaxUint64-part {
+			return 0, fmt.Errorf("amount is too large")
+		}
+		total += part
 	}
 
 	return total, nil
